@@ -15,7 +15,8 @@
 From Coq Require Import ZArith Reals List Permutation.
 From Coquelicot Require Import Coquelicot.
 From FF Require Import Base.Ops Inst.RInst Base.RAlg Model.Numeric Model.Hamiltonian Model.Consts Model.Tie.C13
-  Proofs.Foi Proofs.CMBase Proofs.CMIntegral Proofs.Invariance.
+  Model.Atomic Proofs.AtomicAlg Proofs.Atomic Proofs.EigIndep
+  Proofs.Foi Proofs.CMBase Proofs.CMIntegral Proofs.Invariance Proofs.InvarianceEig.
 Import ListNotations.
 Local Open Scope R_scope.
 
@@ -252,3 +253,87 @@ Proof. exact swap2_unitary. Qed.
 Example C13_all_masked_satisfiable :
   all_masked 2 (/ 10000000) (/ 2) [0; 1] (1 + 1) /\ all_masked 2 (/ 10000000) (/ 2) [0; 1] 1.
 Proof. exact (conj all_masked_example2 all_masked_example). Qed.
+
+(* ============================== arbitrary valid eigen-decompositions ==============================
+   (with agent-c03's Proofs/EigIndep.v)  same_H d ev V ev' V' : V, V' unitary and V diag(ev) V^dagger = V' diag(ev') V'^dagger,
+   i.e. two unitary diagonalisations of the same Hermitian matrix (degenerate spectra, other orderings / phases included);
+   pulse_same d P P' : segment by segment same_H, equal durations and sensitivities.  The sub-segments of a split, the
+   segments around an inserted zero-duration segment and the segments of a re-listed pulse may carry ANY such decomposition:
+   what eigh returns for them is irrelevant. *)
+
+Theorem C13_cm_pulse_eig_independent : forall d thr P P' om bs ns, pulse_same d P P' ->
+  cm_pulse d thr P om bs ns = cm_pulse d thr P' om bs ns.
+Proof. exact cm_pulse_eig_independent. Qed.
+Print Assumptions C13_cm_pulse_eig_independent.
+
+Theorem C13_split_segment_cm_any_eig : forall d thr P1 P1' P2 P2' ev V a b ncg ev1 V1 ev2 V2 om bs ns j k o,
+  0 <= thr -> (j < length ns)%nat -> (k < length bs)%nat -> (o < length om)%nat ->
+  pulse_same d P1 P1' -> pulse_same d P2 P2' ->
+  EigIndep.same_H d ev V ev1 V1 -> EigIndep.same_H d ev V ev2 V2 ->
+  all_masked d thr (vg RO om o) ev (a + b) -> all_masked d thr (vg RO om o) ev a -> all_masked d thr (vg RO om o) ev b ->
+  a3get RO (cm_pulse d thr (P1 ++ (ev, V, a + b, ncg) :: P2) om bs ns) j k o =
+  a3get RO (cm_pulse d thr (P1' ++ (ev1, V1, a, ncg) :: (ev2, V2, b, ncg) :: P2') om bs ns) j k o.
+Proof. exact split_segment_cm_any_eig. Qed.
+Print Assumptions C13_split_segment_cm_any_eig.
+
+Theorem C13_split_segment_cm_bound_any_eig : forall d thr P1 P1' P2 P2' ev V a b ncg ev1 V1 ev2 V2 om bs ns j k o,
+  0 <= thr -> (j < length ns)%nat -> (k < length bs)%nat -> (o < length om)%nat ->
+  pulse_same d P1 P1' -> pulse_same d P2 P2' ->
+  EigIndep.same_H d ev V ev1 V1 -> EigIndep.same_H d ev V ev2 V2 ->
+  Cmod (csub RO (a3get RO (cm_pulse d thr (P1 ++ (ev, V, a + b, ncg) :: P2) om bs ns) j k o)
+               (a3get RO (cm_pulse d thr (P1' ++ (ev1, V1, a, ncg) :: (ev2, V2, b, ncg) :: P2') om bs ns) j k o))
+  <= Rabs (vg RO ncg j) * taylor_eps thr * (Rabs (a + b) + Rabs a + Rabs b)
+     * step_weight d V (prop_before d P1) (nthm ns j) (nthm bs k).
+Proof. exact split_segment_cm_bound_any_eig. Qed.
+Print Assumptions C13_split_segment_cm_bound_any_eig.
+
+Theorem C13_split_segment_ff_any_eig : forall d thr P1 P1' P2 P2' ev V a b ncg ev1 V1 ev2 V2 om bs ns j j' o,
+  0 <= thr -> (j < length ns)%nat -> (j' < length ns)%nat -> (o < length om)%nat ->
+  pulse_same d P1 P1' -> pulse_same d P2 P2' ->
+  EigIndep.same_H d ev V ev1 V1 -> EigIndep.same_H d ev V ev2 V2 -> split_masked d thr om ev a b o ->
+  a3get RO (filter_function RO (length ns) (length bs) (length om)
+              (cm_pulse d thr (P1 ++ (ev, V, a + b, ncg) :: P2) om bs ns)) j j' o =
+  a3get RO (filter_function RO (length ns) (length bs) (length om)
+              (cm_pulse d thr (P1' ++ (ev1, V1, a, ncg) :: (ev2, V2, b, ncg) :: P2') om bs ns)) j j' o.
+Proof. exact split_segment_ff_any_eig. Qed.
+Print Assumptions C13_split_segment_ff_any_eig.
+
+Theorem C13_split_segment_integral_any_eig : forall d thr P1 P1' P2 P2' ev V a b ncg ev1 V1 ev2 V2 om bs ns (phi : Arr3 (T:=R) -> nat -> R),
+  0 <= thr -> column_local (length ns) (length bs) (length om) phi ->
+  pulse_same d P1 P1' -> pulse_same d P2 P2' ->
+  EigIndep.same_H d ev V ev1 V1 -> EigIndep.same_H d ev V ev2 V2 ->
+  (forall o, (o < length om)%nat -> split_masked d thr om ev a b o) ->
+  trapz RO (build (length om) (phi (cm_pulse d thr (P1 ++ (ev, V, a + b, ncg) :: P2) om bs ns))) om =
+  trapz RO (build (length om) (phi (cm_pulse d thr (P1' ++ (ev1, V1, a, ncg) :: (ev2, V2, b, ncg) :: P2') om bs ns))) om.
+Proof. exact split_segment_integral_any_eig. Qed.
+Print Assumptions C13_split_segment_integral_any_eig.
+
+Theorem C13_zero_duration_insert_cm_any_eig : forall d thr P1 P1' P2 P2' ev V ncg om bs ns,
+  pulse_same d P1 P1' -> pulse_same d P2 P2' -> feq d (fmul d (toF V) (fadj (toF V))) fid ->
+  cm_pulse d thr (P1 ++ (ev, V, 0, ncg) :: P2) om bs ns = cm_pulse d thr (P1' ++ P2') om bs ns.
+Proof. exact zero_duration_insert_cm_any_eig. Qed.
+Print Assumptions C13_zero_duration_insert_cm_any_eig.
+
+(* operator order: the control operators only enter through H (C13_hamiltonian_perm), for which eigh returns SOME valid
+   decomposition (same_segs); the noise operators permute the rows *)
+Theorem C13_cm_perm_rows_any_eig : forall d thr evs Vs evs' Vs' om bs ns nc ns' nc' dts,
+  length ns = length nc -> length ns' = length nc' ->
+  Permutation (combine ns nc) (combine ns' nc') -> EigIndep.same_segs d evs Vs evs' Vs' ->
+  exists f : nat -> nat, FinFun.bFun (length ns) f /\ FinFun.bInjective (length ns) f /\
+    forall j k o, (j < length ns)%nat -> (k < length bs)%nat -> (o < length om)%nat ->
+      a3get RO (control_matrix_from_scratch RO d thr evs' Vs' (propagators RO d evs' Vs' dts) om bs ns' nc' dts (times RO dts)) j k o =
+      a3get RO (control_matrix_from_scratch RO d thr evs Vs (propagators RO d evs Vs dts) om bs ns nc dts (times RO dts)) (f j) k o.
+Proof. exact cm_perm_rows_any_eig. Qed.
+Print Assumptions C13_cm_perm_rows_any_eig.
+
+(* same_H in the form validated per case by the harness: both are unitary and satisfy H V = V diag(ev) for the same H *)
+Theorem C13_same_H_of_eigenpairs : forall d (Hm : fmat) ev V ev' V',
+  funitary d (toF V) -> funitary d (toF V') ->
+  feq d (fmul d Hm (toF V)) (fmul d (toF V) (EigIndep.fdiag (fun j => cofr RO (vg RO ev j)))) ->
+  feq d (fmul d Hm (toF V')) (fmul d (toF V') (EigIndep.fdiag (fun j => cofr RO (vg RO ev' j)))) ->
+  EigIndep.same_H d ev V ev' V'.
+Proof. exact same_H_of_eigenpairs. Qed.
+
+(* satisfiable with genuinely different decompositions: degenerate spectrum, identity versus a rotation (C03's example) *)
+Example C13_same_H_satisfiable : EigIndep.same_H 2 [1; 1] exI [1; 1] exRot.
+Proof. exact same_H_satisfiable. Qed.
